@@ -142,10 +142,11 @@ type Env struct {
 	MkItem func(int) *Item
 	Div    func(int, int) int // panics for a zero divisor
 	EqAny  func(a, b interface{}) interface{}
-	FnEnv  func(int) int                // depends on the environment it belongs to (adds B)
-	StrEq  func(a, b fmt.Stringer) bool // parameters of a non-empty interface type
-	MkBox  func(int) Box                // a struct value that cannot be a map key
-	FnAnys func([]interface{}) int      // takes what an array literal is typed as
+	FnEnv  func(int) int                    // depends on the environment it belongs to (adds B)
+	StrEq  func(a, b fmt.Stringer) bool     // parameters of a non-empty interface type
+	MkBox  func(int) Box                    // a struct value that cannot be a map key
+	FnAnys func([]interface{}) int          // takes what an array literal is typed as
+	Tuple  func(...interface{}) interface{} // returns (and so retains) its own argument slice
 
 	log *Log
 }
@@ -156,6 +157,12 @@ type Box struct {
 	Xs  []int
 	N   int
 	Any interface{}
+}
+
+// PInc has a pointer receiver: it exists for *Env only.
+func (e *Env) PInc(n int) int {
+	e.log.add("PInc", n)
+	return n + 2
 }
 
 // Methods on Env (value receiver, usable through Env and *Env).
@@ -235,6 +242,7 @@ func New(l *Log) *Env {
 	e.Div = func(a, b int) int { l.add("Div", a, b); return a / b }
 	e.MkBox = func(n int) Box { l.add("MkBox", n); return Box{Xs: []int{n, n + 1}, N: n, Any: []int{n}} }
 	e.FnAnys = func(xs []interface{}) int { l.add("FnAnys", xs); return len(xs) }
+	e.Tuple = func(xs ...interface{}) interface{} { l.add("Tuple", fmt.Sprint(xs)); return xs }
 	e.MkItem = func(n int) *Item {
 		l.add("MkItem", n)
 		if n%3 == 0 {
